@@ -109,9 +109,9 @@ Print Assumptions antitone_cycle_pos_baud.
 Theorem monotone_negative_baud_refuted :
   exists b b1 b2 def load es load1 es1 load2 es2,
     (0 < def)%Z /\ b_baud b <> 0%Z /\ valid_bus b /\ valid_bus b1 /\ valid_bus b2
-    /\ bus_msgs b = [mkMsg 0 8 100; mkMsg 1 8 10] ++ mkMsg 2 0 0 :: []
-    /\ bus_msgs b1 = [mkMsg 0 8 100; mkMsg 1 8 10] ++ mkMsg 2 3 0 :: []
-    /\ bus_msgs b2 = [mkMsg 0 8 100; mkMsg 1 8 10] ++ mkMsg 2 0 499 :: []
+    /\ bus_msgs b = [plain 0 8 100; plain 1 8 10] ++ plain 2 0 0 :: []
+    /\ bus_msgs b1 = [plain 0 8 100; plain 1 8 10] ++ plain 2 3 0 :: []
+    /\ bus_msgs b2 = [plain 0 8 100; plain 1 8 10] ++ plain 2 0 499 :: []
     /\ calculate_bus_load b def = BLOk load es
     /\ calculate_bus_load b1 def = BLOk load1 es1
     /\ calculate_bus_load b2 def = BLOk load2 es2
@@ -156,3 +156,15 @@ Theorem session_prefix_free : forall b pre pre' d,
   last (session b (pre ++ [d])) (BLErr ErrIsZero) = last (session b (pre' ++ [d])) (BLErr ErrIsZero).
 Proof. exact session_prefix_free_lemma. Qed.
 Print Assumptions session_prefix_free.
+
+(* frame: the result depends on size and cycle time of the messages only — not on delay time, start
+   delay, priority, send type, static CAN-ID, receivers, signals (msg_rest) nor on the key *)
+Theorem load_ignores_delay : forall b b' def,
+  b_typ b' = b_typ b -> b_baud b' = b_baud b -> Forall2 same_core (bus_msgs b) (bus_msgs b') ->
+  match calculate_bus_load b def, calculate_bus_load b' def with
+  | BLOk l es, BLOk l' es' => l = l' /\ map figures es = map figures es'
+  | BLErr e, BLErr e' => e = e'
+  | _, _ => False
+  end.
+Proof. exact load_ignores_delay_lemma. Qed.
+Print Assumptions load_ignores_delay.
